@@ -130,7 +130,7 @@ CLAIMED = {
     "C20": dict(
         technique="mutation of the system under test: generated/enumerated deviant file systems (operation x deviation kind x trigger) run against the real conformance suite in re-executed test binaries; a recording wrapper decides mechanically whether the suite observed the deviation (trace differential vs the reference); ratchet against the deviants rejected at the pinned commit",
         text=("Every deviant of a finite grammar is run against fstest.FS + fstest.File; the calls the suite makes and the results it is handed are recorded per scenario on the deviant and on the reference; a deviant whose recorded behaviour differs must make the suite fail. "
-              "The reference (mem.FS, os.FS) must pass repeatedly at parallelism {1,16}x{1,16} with identical recorded behaviour. Both tiers enumerate the whole grammar (538 deviants, incl. argument-class triggers, weaker-error substitutions and deviations that exist only while calls overlap), exhaustive for that grammar; the 273 deviants rejected at the pinned commit must stay rejected."),
+              "The reference (mem.FS, os.FS) must pass repeatedly at parallelism {1,16}x{1,16} with identical recorded behaviour. Both tiers enumerate the whole grammar (541 deviants, incl. argument-class triggers, weaker-error substitutions and deviations that exist only while calls overlap), exhaustive for that grammar; the 276 deviants rejected at the pinned commit must stay rejected."),
         note="triggers include argument classes (e.g. Truncate only when shrinking); a deviant rejected at the pinned commit (harness/c20/expected_killed.txt) that no scenario observes any more is a violation C20:unexercised (stricter than the literal statement: 'exercised' is pinned to the pinned commit); survivors with a listed signature (operation:kind) are known findings (mode mask of zero, subset tree assertions, unread counts); any other surviving deviant is a violation; exposure that depends on goroutine scheduling (concurrent scenarios, call-count triggers in shared-FS scenarios) is not counted",
     ),
 }
